@@ -550,3 +550,84 @@ func (c *Ctx) binaryFieldsNotValidatedAsText() {
 	}
 	c.R.Count("decoder stores into binary fields (password, will message, payload)", n)
 }
+
+// retainedStoredClean: what the retained tree keeps is handed, by reference, to every connection that subscribes; each
+// of them calls Len() and Encode() on it from its own goroutine. Those only read a *clean* message (one whose image
+// is current: produced by Decode) - on a message built with setters they store the remaining length and other header
+// state, so two subscribers race on the stored object. Every message stored into a retained node is therefore the
+// receiver of a Decode, in the storing function or in the copier that produced it (on every successful return of it).
+func (c *Ctx) retainedStoredClean() {
+	decodedIn := func(f *ssa.Function, v ssa.Value, before ssa.Instruction) bool {
+		for _, call := range ir.Calls(f) {
+			if !ir.IsMethod(call.Common(), pkgMessage, "PublishMessage", "Decode") || ir.SeeThrough(call.Common().Args[0]) != v {
+				continue
+			}
+			if before == nil || ir.Before(call, before) {
+				return true
+			}
+		}
+		return false
+	}
+	var producesClean func(h *ssa.Function, d int) bool
+	producesClean = func(h *ssa.Function, d int) bool {
+		if h == nil || h.Blocks == nil || d > 2 {
+			return false
+		}
+		ok := false
+		for _, ret := range ir.Returns(h) {
+			if len(ret.Results) == 0 {
+				return false
+			}
+			r := ir.SeeThrough(ir.ReturnOperand(ret, 0))
+			if k, isK := r.(*ssa.Const); isK && k.IsNil() {
+				continue // the failing returns
+			}
+			if !decodedIn(h, r, ret) && !cleanValue(r, producesClean, d) {
+				return false
+			}
+			ok = true
+		}
+		return ok
+	}
+	n := 0
+	for _, fn := range c.P.Funcs {
+		if fn.Pkg == nil || fn.Pkg.Pkg.Path() != pkgTopics || fn.Blocks == nil {
+			continue
+		}
+		for _, b := range fn.Blocks {
+			for _, in := range b.Instrs {
+				st, ok := in.(*ssa.Store)
+				if !ok {
+					continue
+				}
+				sp := ir.PathOf(st.Addr)
+				if sp.Class() != "topics.rnode.msg" {
+					continue
+				}
+				if k, isK := st.Val.(*ssa.Const); isK && k.IsNil() {
+					continue
+				}
+				n++
+				v := ir.SeeThrough(st.Val)
+				good := decodedIn(fn, v, st) || cleanValue(v, producesClean, 0)
+				c.R.Check(good, ruleG5, fmt.Sprintf("%s:stored-retained-message-is-clean#%d", fname(fn), n), c.P.InstrPos(st),
+					"the stored message is the receiver of a Decode (its image is current: Len and Encode only read it)",
+					"the message stored into the retained tree is not produced by Decode (it was assembled with setters or field copies): Len() and Encode() of such a message write its header state, and the stored object is sent by every subscribing connection from its own goroutine - two of them race on it, and a reader can see a half-updated remaining length")
+			}
+		}
+	}
+	c.R.Count("stores of a retained message object (clean image)", n)
+	c.R.Floor("stores of a retained message object (clean image)", n, 1)
+}
+
+// cleanValue: v is the (first) result of a call to a library function that produces a clean message.
+func cleanValue(v ssa.Value, producesClean func(*ssa.Function, int) bool, d int) bool {
+	if ex, ok := v.(*ssa.Extract); ok && ex.Index == 0 {
+		v = ex.Tuple
+	}
+	call, ok := v.(*ssa.Call)
+	if !ok || call.Common().StaticCallee() == nil {
+		return false
+	}
+	return producesClean(call.Common().StaticCallee(), d+1)
+}
